@@ -182,7 +182,8 @@ def eval_case(history: dict) -> dict:
                     mod.create_header(ns) for mod in (strict_port, ilog, misc_utils,
                                                       meta_helpers, multi_client_selector,
                                                       mutex_wrapped))}
-            for gc in res.files[2:]:
+            own = {shellbuild.shell_name(enc) + '.hh', shellbuild.shell_name(enc) + '.cc'}
+            for gc in [g for g in res.files if g.filename not in own]:
                 cnt['support_files_compared'] = cnt.get('support_files_compared', 0) + 1
                 alone = standalone[pkey].get(gc.filename)
                 if alone is None or alone.contents != gc.contents or alone != gc:
